@@ -32,6 +32,9 @@ enum Role {
     Adder,
     CounterList,
     Nest,
+    /// a vector that contains itself in one slot; never stored anywhere else, never printed
+    /// by the interpreter, never handed to a faulting operation
+    CycVec,
 }
 
 const HANDLE_ROLES: &[Role] = &[Role::Vec, Role::Counter, Role::Acc];
@@ -99,6 +102,10 @@ const HELPERS: &[(&str, &str)] = &[
     ("vfill!", "(define (vfill! v i x) (if (< i (vector-length v)) (vfill2 v i x) x))"),
     ("make-ctr0", "(define (make-ctr0) (define n 0) (lambda () (set! n (+ n 1)) n))"),
     ("rest-id", "(define (rest-id . r) r)"),
+    (
+        "make-ictr",
+        "(define (make-ictr k) (define n k) (define (bump) (set! n (+ n 1)) n) (bump) (lambda () (bump) n))",
+    ),
     ("pair-up", "(define (pair-up a . r) (cons a r))"),
     (
         "make-chain",
@@ -180,6 +187,9 @@ impl Gen {
         }
     }
     fn small_lit(&mut self) -> i64 {
+        self.rng.range(-9, 99)
+    }
+    fn small_lit_pure(&mut self) -> i64 {
         self.rng.range(-9, 99)
     }
     /// a pure integer-valued expression
@@ -1057,6 +1067,69 @@ impl Gen {
                 self.emit(list(vec![sym("define"), sym(&name), sx]), "mk-veclist-through-rest-args", vec![a, b, name], false);
                 true
             }
+            35 => {
+                // internal definitions of one call share one frame: a closure defined internally
+                // and the body see the same variable
+                if self.names_with(Role::Counter).len() >= 8 {
+                    return false;
+                }
+                self.need("make-ictr");
+                let c = self.fresh("c");
+                let k = self.small_lit();
+                self.roles.insert(c.clone(), Role::Counter);
+                self.emit(
+                    list(vec![sym("define"), sym(&c), call("make-ictr", vec![int(k)])]),
+                    "mk-counter-internal-defines",
+                    vec![c],
+                    true,
+                );
+                true
+            }
+            36 => {
+                // a vector stored into one of its own slots is an alias of itself
+                let cyc = self.names_with(Role::CycVec);
+                if cyc.is_empty() || self.rng.chance(1, 3) {
+                    if cyc.len() >= 2 {
+                        return false;
+                    }
+                    // make a fresh one: never an existing vector that other paths print or store
+                    let name = self.fresh("cy");
+                    self.roles.insert(name.clone(), Role::CycVec);
+                    let mid = self.small_lit_pure();
+                    self.emit(
+                        list(vec![sym("define"), sym(&name), call("vector", vec![int(0), int(mid), int(7)])]),
+                        "mk-vector-for-self-reference",
+                        vec![name.clone()],
+                        true,
+                    );
+                    self.emit(
+                        call("vector-set!", vec![sym(&name), int(0), sym(&name)]),
+                        "vset-self",
+                        vec![name],
+                        true,
+                    );
+                    return true;
+                }
+                let name = self.rng.pick(&cyc).clone();
+                let j = self.rng.range(1, 2);
+                let v = self.rng.upto(3);
+                let lit = self.small_lit();
+                let (sx, kind, w) = match v {
+                    0 => (
+                        call("vector-set!", vec![call("vector-ref", vec![sym(&name), int(0)]), int(j), int(lit)]),
+                        "vset-through-self-slot",
+                        true,
+                    ),
+                    1 => (call("vector-ref", vec![sym(&name), int(j)]), "vref-cyclic", false),
+                    _ => (
+                        call("vector-ref", vec![call("vector-ref", vec![call("vector-ref", vec![sym(&name), int(0)]), int(0)]), int(j)]),
+                        "vref-through-self-slot",
+                        false,
+                    ),
+                };
+                self.emit(sx, kind, vec![name], w);
+                true
+            }
             29 => {
                 // a closure stored in a vector slot, then called through the slot
                 let Some((path, id, mut roots)) = self.vec_path() else { return false };
@@ -1680,7 +1753,7 @@ pub fn generate_a(seed: u64, quick: bool, faults: bool) -> Value {
     let hash_seed = rng.next_u64() | 1;
     // swarm configuration
     let steps = if quick { rng.range(10, 40) } else { rng.range(10, 60) } as usize;
-    let nops = 35;
+    let nops = 37;
     let mut weights: Vec<u32> = (0..nops).map(|_| if rng.chance(1, 4) { 0 } else { rng.range(1, 6) as u32 }).collect();
     if weights.iter().all(|w| *w == 0) {
         weights[0] = 1;
